@@ -108,7 +108,7 @@ def run(cx):
                 if any(x[0] == "variant" and x[2] == "Ready" for x in walk(t)) and term_has_call(t, "tower_service::Service::call"):
                     return "ret=inner-result"
                 if t[0] == "agg" and t[2].endswith("Result::Err"):
-                    e = strip_identity(t[3][0])
+                    e = deep_payload(t[3][0])          # (also when a helper hands the refusal back as `Some(status)` / `Err(status)`)
                     ok = e[0] == "call" and name_matches(e[1], "anemo::rpc::Status::with_header")
                     if ok:
                         st, key, val = e[2]
